@@ -4,9 +4,7 @@ package flushable
 
 // Machine-checked contracts for /verif (read as text by the VC generator; no code).
 //
-// ---- flush-ID marks (C25) ----
-// gSeen[name]: the mark read from database 'name' by the running CheckDBsSynced (nil: no mark)
-//@ // recorded calls on lazy flushables (used by the pool; the flushable itself is C22's subject)
+// ghost state (declared first; meaning given where it is used)
 //@ ghost gInitN int
 //@ ghost gInitRecv *LazyFlushable
 //@ ghost gInitR0 kvdb.Store
@@ -15,13 +13,103 @@ package flushable
 //@ ghost gLFlushRecv *LazyFlushable
 //@ ghost gLFlushR0 error
 //@ ghost gRealCloseN int
-//@ // gDMat[w] / gCMat[w]: position in the writer-op history of the last dirty / clean mark written for wrapper w (-1: failed)
-//@ // gFlAt[w]: number of the last successful data flush of w
 //@ ghost gDMat[*closeDropWrapped] int
 //@ ghost gCMat[*closeDropWrapped] int
 //@ ghost gFlAt[*closeDropWrapped] int
 //@ ghost gSeen[string] []byte
 //@ ghost gSeenErr[string] error
+//
+// ---- the flushable store (C22) ----
+// The overlay w.modified is a red-black tree keyed by string(key) (model: contracts/trusted/rbtree.contracts):
+// a present key with a nil value is a tombstone (deleted), otherwise the value is a non-nil []byte copy.
+// The underlying store is specified by recording contracts (which call is forwarded with which arguments).
+//@ spec ovOK(t *redblacktree.Tree) bool = twf(t) && forall(k string, tHas[t][k] ==> tVal[t][k] == nil || (typeis(tVal[t][k], "[]byte") && unbox(tVal[t][k], "[]byte") != nil))
+//@ // reader invariant: open (overlay present and well-formed) with an underlying reader
+//@ spec rinv(w *flushableReader) bool = w != nil && w.underlying != nil && w.modified != nil && ovOK(w.modified)
+//@ spec finv(w *Flushable) bool = w != nil && w.underlying != nil && w.sizeEstimation != nil && w.flushableReader.underlying != nil && w.flushableReader.modified != nil && ovOK(w.flushableReader.modified)
+//@ // ovHas / ovDel / ovVal: key k is written in the overlay / deleted in the overlay / its overlay value
+//@ spec ovHas(t *redblacktree.Tree, k []byte) bool = tHas[t][strof(k)]
+//@ spec ovDel(t *redblacktree.Tree, k []byte) bool = tHas[t][strof(k)] && tVal[t][strof(k)] == nil
+//@ spec ovVal(t *redblacktree.Tree, k []byte) []byte = unbox(tVal[t][strof(k)], "[]byte")
+//@
+//@ func WrapWithDrop
+//@   panics   parent == nil
+//@   ensures  fresh(result) && finv(result) && tN[result.flushableReader.modified] == 0 && forall(k string, !tHas[result.flushableReader.modified][k]) && result.underlying == parent && result.flushableReader.underlying == parent && result.onDrop == drop && deref(result.sizeEstimation) == 0
+//@   modifies gPend[*]
+//@   ghost gPend[box(result, "*Flushable")] = 0
+//@   ensures  [pending] gPend[box(result, "*Flushable")] == 0 && forall(s kvdb.FlushableKVStore, s != box(result, "*Flushable") ==> gPend[s] == old(gPend[s]))
+//@
+//@ // put / delete: exactly the entry of string(key) changes: it now holds a private non-nil copy of the value / a tombstone
+//@ func (*Flushable).put
+//@   requires finv(w) && key != nil && value != nil
+//@   modifies tHas[w.flushableReader.modified], tVal[w.flushableReader.modified], tN[w.flushableReader.modified], tKey[w.flushableReader.modified], tNode[w.flushableReader.modified], nOwner[*], nIdx[*], all(redblacktree.Node).Key, all(redblacktree.Node).Value, deref(w.sizeEstimation)
+//@   ensures  [inv] finv(w)
+//@   ensures  [set] ovHas(w.flushableReader.modified, key) && !ovDel(w.flushableReader.modified, key) && arrfresh(ovVal(w.flushableReader.modified, key), old(_alloc)) && len(ovVal(w.flushableReader.modified, key)) == len(value) && forall(i, 0, len(value), ovVal(w.flushableReader.modified, key)[i] == value[i])
+//@   ensures  [others] forall(k string, k != strof(key) ==> tHas[w.flushableReader.modified][k] == old(tHas[w.flushableReader.modified][k]) && tVal[w.flushableReader.modified][k] == old(tVal[w.flushableReader.modified][k]))
+//@   ensures  [count] tN[w.flushableReader.modified] == old(tN[w.flushableReader.modified]) + ite(old(ovHas(w.flushableReader.modified, key)), 0, 1)
+//@   ensures  [trees] forall(n *redblacktree.Node, old(nOwner[n]) != w.flushableReader.modified && old(nOwner[n]) != nil ==> nOwner[n] == old(nOwner[n]) && nIdx[n] == old(nIdx[n]) && n.Key == old(n.Key) && n.Value == old(n.Value))
+//@ func (*Flushable).delete
+//@   requires finv(w)
+//@   modifies tHas[w.flushableReader.modified], tVal[w.flushableReader.modified], tN[w.flushableReader.modified], tKey[w.flushableReader.modified], tNode[w.flushableReader.modified], nOwner[*], nIdx[*], all(redblacktree.Node).Key, all(redblacktree.Node).Value, deref(w.sizeEstimation)
+//@   ensures  [inv] finv(w)
+//@   ensures  [set] ovDel(w.flushableReader.modified, key)
+//@   ensures  [others] forall(k string, k != strof(key) ==> tHas[w.flushableReader.modified][k] == old(tHas[w.flushableReader.modified][k]) && tVal[w.flushableReader.modified][k] == old(tVal[w.flushableReader.modified][k]))
+//@   ensures  [count] tN[w.flushableReader.modified] == old(tN[w.flushableReader.modified]) + ite(old(ovHas(w.flushableReader.modified, key)), 0, 1)
+//@ // Put refuses nil keys and nil values (nothing changes) and otherwise behaves as put; the underlying store is not touched
+//@ func (*Flushable).Put
+//@   requires finv(w)
+//@   modifies tHas[w.flushableReader.modified], tVal[w.flushableReader.modified], tN[w.flushableReader.modified], tKey[w.flushableReader.modified], tNode[w.flushableReader.modified], nOwner[*], nIdx[*], all(redblacktree.Node).Key, all(redblacktree.Node).Value, deref(w.sizeEstimation)
+//@   ensures  [inv] finv(w)
+//@   ensures  [refuse] (value == nil || key == nil) ==> result != nil && tN[w.flushableReader.modified] == old(tN[w.flushableReader.modified]) && forall(k string, tHas[w.flushableReader.modified][k] == old(tHas[w.flushableReader.modified][k]) && tVal[w.flushableReader.modified][k] == old(tVal[w.flushableReader.modified][k]))
+//@   ensures  [set] value != nil && key != nil ==> result == nil && ovHas(w.flushableReader.modified, key) && !ovDel(w.flushableReader.modified, key) && len(ovVal(w.flushableReader.modified, key)) == len(value) && forall(i, 0, len(value), ovVal(w.flushableReader.modified, key)[i] == value[i])
+//@   ensures  [others] forall(k string, k != strof(key) ==> tHas[w.flushableReader.modified][k] == old(tHas[w.flushableReader.modified][k]) && tVal[w.flushableReader.modified][k] == old(tVal[w.flushableReader.modified][k]))
+//@   ensures  [count] value != nil && key != nil ==> tN[w.flushableReader.modified] == old(tN[w.flushableReader.modified]) + ite(old(ovHas(w.flushableReader.modified, key)), 0, 1)
+//@ func (*Flushable).Delete
+//@   requires finv(w)
+//@   modifies tHas[w.flushableReader.modified], tVal[w.flushableReader.modified], tN[w.flushableReader.modified], tKey[w.flushableReader.modified], tNode[w.flushableReader.modified], nOwner[*], nIdx[*], all(redblacktree.Node).Key, all(redblacktree.Node).Value, deref(w.sizeEstimation)
+//@   ensures  [inv] finv(w) && result == nil
+//@   ensures  [set] ovDel(w.flushableReader.modified, key)
+//@   ensures  [others] forall(k string, k != strof(key) ==> tHas[w.flushableReader.modified][k] == old(tHas[w.flushableReader.modified][k]) && tVal[w.flushableReader.modified][k] == old(tVal[w.flushableReader.modified][k]))
+//@   ensures  [count] tN[w.flushableReader.modified] == old(tN[w.flushableReader.modified]) + ite(old(ovHas(w.flushableReader.modified, key)), 0, 1)
+//@
+//@ // Has / Get: an overlay entry decides (tombstone: absent; value: present, Get returns a fresh copy) and the
+//@ // underlying store is not consulted; otherwise the call is forwarded unchanged and its answer returned; reads change nothing
+//@ func (*flushableReader).Has
+//@   requires w != nil && w.underlying != nil && (w.modified != nil ==> ovOK(w.modified))
+//@   modifies gKeyValueReaderHasN, gKeyValueReaderHasRecv, gKeyValueReaderHasA0, gKeyValueReaderHasR0, gKeyValueReaderHasR1
+//@   ensures  [closed] w.modified == nil ==> !result0 && result1 == errClosed && gKeyValueReaderHasN == old(gKeyValueReaderHasN)
+//@   ensures  [overlay] w.modified != nil && ovHas(w.modified, key) ==> result0 == !ovDel(w.modified, key) && result1 == nil && gKeyValueReaderHasN == old(gKeyValueReaderHasN)
+//@   ensures  [under] w.modified != nil && !ovHas(w.modified, key) ==> gKeyValueReaderHasN == old(gKeyValueReaderHasN) + 1 && gKeyValueReaderHasRecv == w.underlying && gKeyValueReaderHasA0 == key && result0 == gKeyValueReaderHasR0 && result1 == gKeyValueReaderHasR1
+//@ func (*flushableReader).Get
+//@   requires w != nil && w.underlying != nil && (w.modified != nil ==> ovOK(w.modified))
+//@   modifies gKeyValueReaderGetN, gKeyValueReaderGetRecv, gKeyValueReaderGetA0, gKeyValueReaderGetR0, gKeyValueReaderGetR1
+//@   ensures  [closed] w.modified == nil ==> result0 == nil && result1 == errClosed && gKeyValueReaderGetN == old(gKeyValueReaderGetN)
+//@   ensures  [deleted] w.modified != nil && ovDel(w.modified, key) ==> result0 == nil && result1 == nil && gKeyValueReaderGetN == old(gKeyValueReaderGetN)
+//@   ensures  [overlay] w.modified != nil && ovHas(w.modified, key) && !ovDel(w.modified, key) ==> result1 == nil && result0 != nil && arrfresh(result0, old(_alloc)) && len(result0) == len(ovVal(w.modified, key)) && forall(i, 0, len(result0), result0[i] == ovVal(w.modified, key)[i]) && gKeyValueReaderGetN == old(gKeyValueReaderGetN)
+//@   ensures  [under] w.modified != nil && !ovHas(w.modified, key) ==> gKeyValueReaderGetN == old(gKeyValueReaderGetN) + 1 && gKeyValueReaderGetRecv == w.underlying && gKeyValueReaderGetA0 == key && result0 == gKeyValueReaderGetR0 && result1 == gKeyValueReaderGetR1
+//@
+//@ // dropping the unflushed writes empties the overlay (the view is the underlying store's again)
+//@ func (*Flushable).dropNotFlushed
+//@   requires w != nil && w.flushableReader.modified != nil && w.sizeEstimation != nil
+//@   modifies tHas[w.flushableReader.modified], tVal[w.flushableReader.modified], tN[w.flushableReader.modified], tKey[w.flushableReader.modified], tNode[w.flushableReader.modified], deref(w.sizeEstimation)
+//@   ensures  tN[w.flushableReader.modified] == 0 && forall(k string, !tHas[w.flushableReader.modified][k]) && ovOK(w.flushableReader.modified) && deref(w.sizeEstimation) == 0
+//@ func (*Flushable).DropNotFlushed
+//@   requires w != nil && w.flushableReader.modified != nil && w.sizeEstimation != nil
+//@   modifies tHas[w.flushableReader.modified], tVal[w.flushableReader.modified], tN[w.flushableReader.modified], tKey[w.flushableReader.modified], tNode[w.flushableReader.modified], deref(w.sizeEstimation)
+//@   ensures  tN[w.flushableReader.modified] == 0 && forall(k string, !tHas[w.flushableReader.modified][k]) && ovOK(w.flushableReader.modified) && deref(w.sizeEstimation) == 0
+//@ // the number of unflushed keys is the number of distinct keys in the overlay (tombstones included)
+//@ func (*Flushable).NotFlushedPairs
+//@   requires finv(w)
+//@   ensures  result == tN[w.flushableReader.modified]
+//@ func (*Flushable).NotFlushedSizeEst
+//@   requires w != nil && w.sizeEstimation != nil
+//@   ensures  result == deref(w.sizeEstimation)
+//@
+// ---- flush-ID marks (C25) ----
+// gSeen[name]: the mark read from database 'name' by the running CheckDBsSynced (nil: no mark)
+//@ // recorded calls on lazy flushables (used by the pool; the flushable itself is C22's subject)
+//@ // gDMat[w] / gCMat[w]: position in the writer-op history of the last dirty / clean mark written for wrapper w (-1: failed)
+//@ // gFlAt[w]: number of the last successful data flush of w
 //@ // a mark is one prefix byte (0xde dirty, 0x00 clean) followed by the flush ID
 //@ spec isMark(v []byte, prefix int, id []byte) bool = len(v) == len(id) + 1 && v[0] == prefix && forall(i, 0, len(id), v[i + 1] == id[i])
 //@ spec dirtyM(m []byte) bool = len(m) >= 1 && m[0] == 222
